@@ -1,29 +1,30 @@
 (* FiltChain.v — paths whose steps may be existence filters: `$` then any sequence of steps (names, indexes, wildcards,
    slices, unions, each possibly after `..`) and filters [?(@ steps)].  The chain-level inductions of ChainParse, redone
    over the larger step type; the per-step facts come from ChainParse (ordinary steps) and FiltParse (filters). *)
-From JP Require Import Peg Grammar Text Tree Actions PegFacts PegMono PegEv FuelRules ParseFacts KeyDefs KeyParse IdxParse SliceParse UnionParse WildParse RecParse ChainParse SpacePath FunParse AggParse Frame FiltParse CmpParse NegFilt.
+From JP Require Import Peg Grammar Text Tree Actions PegFacts PegMono PegEv FuelRules ParseFacts KeyDefs KeyParse IdxParse SliceParse UnionParse WildParse RecParse ChainParse SpacePath FunParse AggParse Frame FiltParse CmpParse NegFilt QueryParse.
 From Coq Require Import Lia.
 Local Open Scope N_scope.
 Open Scope list_scope.
 
 Definition fstep_ok (x : fstep) : bool :=
-  match x with FS y => rstep_ok y | FE i | FN i => forallb rstep_ok i | FC i o lit => forallb rstep_ok i && negb (steps_vg i) && lit_ok lit end.
+  match x with FS y => rstep_ok y | FE i | FN i => forallb rstep_ok i | FC i o lit => forallb rstep_ok i && negb (steps_vg i) && lit_ok lit | FQ d => dnf_ok d end.
 Definition fstep_tokens (p : nat) (x : fstep) : list token :=
-  match x with FS y => rstep_tokens p y | FE i => filt_tokens p i | FC i o lit => cmp_tokens p i o lit | FN i => neg_tokens p i end.
+  match x with FS y => rstep_tokens p y | FE i => filt_tokens p i | FC i o lit => cmp_tokens p i o lit | FN i => neg_tokens p i | FQ d => fq_tokens p d end.
 Fixpoint fsteps_tokens (p : nat) (l : list fstep) : list token :=
   match l with [] => [] | x :: r => fstep_tokens p x ++ fsteps_tokens (p + List.length (render_fstep x)) r end.
 
 Lemma filt_text_len i : List.length (filt_text i) = (6 + List.length (render_steps i))%nat.
 Proof. unfold filt_text. cbn [app List.length]. rewrite app_length. cbn [List.length]. lia. Qed.
 Lemma render_fstep_len_pos x : (1 <= List.length (render_fstep x))%nat.
-Proof. destruct x as [y|i|i o lit|i]; cbn [render_fstep]; [apply render_rstep_len_pos|rewrite filt_text_len; lia|rewrite cmp_text_len; lia|rewrite neg_text_len; lia]. Qed.
+Proof. destruct x as [y|i|i o lit|i|d]; cbn [render_fstep]; [apply render_rstep_len_pos|rewrite filt_text_len; lia|rewrite cmp_text_len; lia|rewrite neg_text_len; lia|rewrite fq_text_len; lia]. Qed.
 
 Lemma fsteps_stop l : dot_stop (render_fsteps l).
 Proof.
-  destruct l as [|[y|i|i o lit|i] r]; [exact I| | | |].
+  destruct l as [|[y|i|i o lit|i|d] r]; [exact I| | | | |].
   - pose proof (steps_stop [y]) as H. unfold render_steps in H. cbn [flat_map] in H. rewrite app_nil_r in H.
     unfold render_fsteps. cbn [flat_map render_fstep]. pose proof (render_rstep_len_pos y) as Hl.
     destruct (render_rstep y) as [|c t]; [cbn [List.length] in Hl; lia|exact H].
+  - cbn. repeat split; try reflexivity; discriminate.
   - cbn. repeat split; try reflexivity; discriminate.
   - cbn. repeat split; try reflexivity; discriminate.
   - cbn. repeat split; try reflexivity; discriminate.
@@ -32,7 +33,7 @@ Qed.
 Lemma ev_rule7_fstep x rest pos : fstep_ok x = true -> dot_stop rest ->
   evG (PRef 7) (render_fstep x ++ rest) pos (POk rest (pos + List.length (render_fstep x)) (fstep_tokens pos x)).
 Proof.
-  intros Hs Hr. destruct x as [y|i|i o lit|i]; cbn [render_fstep fstep_tokens fstep_ok] in *; [apply ev_rule7_rstep; assumption| | |apply (ev_rule7_neg i rest pos Hs)].
+  intros Hs Hr. destruct x as [y|i|i o lit|i|d]; cbn [render_fstep fstep_tokens fstep_ok] in *; [apply ev_rule7_rstep; assumption| | |apply (ev_rule7_neg i rest pos Hs)|apply (ev_rule7_fq d rest pos Hs)].
   - eapply ev_conv; [apply (ev_rule7_exists i rest pos Hs)|]. rewrite filt_text_len. f_equal. lia.
   - apply andb_true_iff in Hs. destruct Hs as [Hs Hl]. apply andb_true_iff in Hs. destruct Hs as [Hs _]. apply (ev_rule7_cmp i o lit rest pos Hs Hl).
 Qed.
@@ -92,35 +93,37 @@ Section FChainExec.
   (* the number a literal denotes (strconv.ParseFloat, a parameter of the model) *)
   Definition lit_num (lit : list N) : num := match parse_float (text_of lit) with Some f => f | None => Fin 0 0 end.
   Definition fstep_okp (x : fstep) : bool :=
-    match x with FC _ _ lit => match parse_float (text_of lit) with Some _ => true | None => false end | _ => true end.
+    match x with FC _ _ lit => match parse_float (text_of lit) with Some _ => true | None => false end | FQ d => dnf_okp parse_float d | _ => true end.
   Definition fpre_of (x : fstep) : list (kind * basic) :=
     match x with
     | FS y => rstep_pre cfg y
     | FE i => [(filt_kind cfg i, filt_basic cfg i)]
     | FC i o lit => [(cmp_kind cfg i o (lit_num lit), cmp_basic cfg i o lit)]
     | FN i => [(neg_kind cfg i, neg_basic cfg i)]
+    | FQ d => [(fq_kind cfg parse_float d, fq_basic cfg d)]
     end.
   Definition fnode_of (x : fstep) : node :=
     match fpre_of x with x0 :: r => Node (fst x0) (snd x0) (link r) | [] => nil_node end.
   Definition fpres (l : list fstep) : list (kind * basic) := flat_map fpre_of l.
 
   Lemma fpre_plain x : plainl (fpre_of x).
-  Proof. destruct x as [y|i|i o lit|i]; cbn [fpre_of]; [apply rstep_pre_plain| | |]; (constructor; [split; intros; discriminate|constructor]). Qed.
+  Proof. destruct x as [y|i|i o lit|i|d]; cbn [fpre_of]; [apply rstep_pre_plain| | | |]; (constructor; [split; intros; discriminate|constructor]). Qed.
   Lemma fpres_plain l : plainl (fpres l).
   Proof. induction l as [|x r IH]; [constructor|]. unfold fpres. cbn [flat_map]. apply Forall_app. split; [apply fpre_plain|exact IH]. Qed.
   Lemma fpre_nonempty x : fpre_of x <> [].
-  Proof. destruct x as [[s|s]|i|i o lit|i]; discriminate. Qed.
+  Proof. destruct x as [[s|s]|i|i o lit|i|d]; discriminate. Qed.
 
   Lemma exec_fstep input p x ps toks cps b rest : fstep_ok x = true -> fstep_okp x = true -> skipn p input = render_fstep x ++ rest ->
     exists cps' b', execute (fstep_tokens p x ++ toks) input cps b (mk ps) = execute toks input cps' b' (mk (ps ++ [INode (fnode_of x)])).
   Proof.
-    intros Hs Hp Hin. destruct x as [y|i|i o lit|i]; cbn [fstep_ok fstep_okp fstep_tokens render_fstep] in *.
+    intros Hs Hp Hin. destruct x as [y|i|i o lit|i|d]; cbn [fstep_ok fstep_okp fstep_tokens render_fstep] in *.
     - apply (exec_rstep cfg parse_float regex_ok input p y ps toks cps b rest Hs Hin).
     - apply (exec_filt cfg parse_float regex_ok input p i rest ps toks cps b Hs Hin).
     - apply andb_true_iff in Hs. destruct Hs as [Hs Hl]. apply andb_true_iff in Hs. destruct Hs as [Hs Hvg]. apply negb_true_iff in Hvg.
       unfold fnode_of, fpre_of, lit_num. cbn [fst snd link]. destruct (parse_float (text_of lit)) as [f|] eqn:Ef; [|discriminate Hp].
       apply (exec_cmp cfg parse_float regex_ok input p i o lit f rest ps toks cps b Hs Hvg Ef Hin).
     - apply (exec_neg cfg parse_float regex_ok input p i rest ps toks cps b Hs Hin).
+    - apply (exec_fq cfg parse_float regex_ok input p d rest ps toks cps b Hs Hp Hin).
   Qed.
 
   Lemma exec_fsteps_tail input l tail : forall p ps toks cps b, forallb fstep_ok l = true -> forallb fstep_okp l = true -> skipn p input = render_fsteps l ++ tail ->
@@ -142,7 +145,7 @@ Section FChainExec.
   Proof. intros p ps toks cps b Hs Hp Hin. apply (exec_fsteps_tail input l [] p ps toks cps b Hs Hp). rewrite app_nil_r. exact Hin. Qed.
 
   Lemma fnode_not_agg root x : chain_step (AOk root) (INode (fnode_of x)) = AOk (append_deep root (fnode_of x)).
-  Proof. destruct x as [y|i|i o lit|i]; [apply (rpre_not_agg cfg)|reflexivity|reflexivity|reflexivity]. Qed.
+  Proof. destruct x as [y|i|i o lit|i|d]; [apply (rpre_not_agg cfg)|reflexivity|reflexivity|reflexivity|reflexivity]. Qed.
 
   Lemma chain_fold_f k b l : plain_kind k -> forall l0, plainl l0 ->
     fold_left chain_step (map (fun s => INode (fnode_of s)) l) (AOk (Node k b (link l0))) = AOk (Node k b (link (l0 ++ fpres l))).
